@@ -138,6 +138,16 @@ CLAIMED = {
    note='Trusted: Coq kernel; extraction + driver; frozen clock via files.timer/times.timer replaced from outside; factor 1, no duration/upcoming, default on_bad_* flags; '
         'timestamps multiples of 10 ms.  Partial: exactly-once holds only outside the three recorded shapes (no general positive theorem; the check reports any other shape).',
    technique='Coq proof (invariant over the loader state machine, induction over fuel and schedule; vm_compute refutation witnesses) + correspondence', design='6 C18'),
+ 'C06': dict(
+   text='Coq theorems (Properties/C06.v) over a session model (Model/Session.v: Register / Unregister / List* / SendRRData, the CIP request executed by Model.Route.ucmm_local = '
+        'Model.Logix.exec behind the route-path filter): for every request sequence, personality and store the reply frames are aligned one-to-one and in order with the requests '
+        'until the session ends; each carries its request\'s command, sender context, options and session handle (Register: a new non-zero one); a SendRRData reply has status 0 and a '
+        'CIP reply whose service code is the request\'s with the reply bit set, or a non-zero status, no payload, and nothing after it; Unregister is answered by nothing; while nothing '
+        'ends the session every request is answered.  Independence of pipelining/chunking is C02.  Tie: generated sessions through the real enip_srv_tcp + logix.process as one block '
+        'and frame by frame (also after an aborted session from the same peer), replies compared field by field with the extracted model; one routed scenario over real sockets.',
+   note='Trusted: Coq kernel; extraction + driver; cpppo\'s own producer renders the typed requests to frames (their byte layout is C01); session handles are random (oracle function in '
+        'the model, only non-zero-ness compared); Forward Open / connected sends not in this check; remote routes only in the timing-dependent socket scenario (not modelled).',
+   technique='Coq proof (induction over the request sequence; service-bit lemma over Model.Logix.exec) + model/implementation correspondence', design='6 C06'),
 }
 PENDING = {}
 ALL = ['C%02d' % i for i in range(1, 21)]
